@@ -20,7 +20,7 @@ RULE = ("Generated histories over a pool of meshes, each shadowed by a model (co
 ASSUMPTIONS = ["normalize is only applied to meshes with non-zero extent", "rotation parameters are finite; scale factors in [0.1, 10]",
                "after a subdivision the source object is dropped from the pool (C13 covers its state)"]
 
-TOL = 1e-11
+TOL = 1e-11   # relative to max(1e-30, largest model coordinate), see verify()
 
 
 # ------------------------------------------------------------------ strategies
@@ -119,7 +119,7 @@ def history(draw):
             ops.append([op, i, draw(st.integers(0, 50)), draw(small)])
         elif op == "roundtrip":
             ops.append([op, i, draw(st.sampled_from(["translate", "rotate", "scale"])), draw(vec3), [draw(angle), draw(angle), draw(angle)], draw(factor)])
-    return {"specs": specs, "ops": ops, "scale": draw(st.sampled_from([1.0, 1.0, 1.0, 1e-6, 1e-3, 1e3, 1e6]))}
+    return {"specs": specs, "ops": ops, "scale": draw(st.sampled_from([1.0, 1.0, 1.0, 1e-12, 1e-9, 1e-6, 1e-3, 1e3, 1e6]))}
 
 
 # ------------------------------------------------------------------ model
@@ -192,7 +192,7 @@ def fn(case, ctx):
         if len(pool) > 7:
             pool.pop(0)
 
-    def verify(where, target=None):
+    def verify(where, target=None, opmag=None):
         for (m, mdl) in pool:
             try:
                 V, E, F, C = read_mesh(m)
@@ -200,7 +200,7 @@ def fn(case, ctx):
                 ctx.fail("state:unreadable", f"{where}: a pool mesh cannot be read any more: {type(e).__name__}: {e}")
                 continue
             exact = mdl is not target
-            ok = V.shape == mdl.V.shape and (np.array_equal(V, mdl.V) if exact else bool(np.all(np.abs(V - mdl.V) <= TOL * max(1.0, float(np.max(np.abs(mdl.V))) if mdl.V.size else 1.0))))
+            ok = V.shape == mdl.V.shape and (np.array_equal(V, mdl.V) if exact else bool(np.all(np.abs(V - mdl.V) <= TOL * max(opmag or 0.0, float(np.max(np.abs(mdl.V))) if mdl.V.size else 0.0, 1e-300))))
             if not ok:
                 bad = None
                 if V.shape == mdl.V.shape:
@@ -426,10 +426,19 @@ def fn(case, ctx):
             target = mdl0
             if len(mdl0.V) == 0:
                 continue
+            # round-off of an operation is relative to the largest magnitude it handles: coordinates before / after, vector
+            # arguments, intermediate states of a round trip
+            argmag = max([float(np.max(np.abs(np.array(a, dtype=float)))) for a in op[2:] if isinstance(a, list) and a and all(isinstance(x, (int, float)) for x in a)] or [0.0])
+            opmag_before = max(float(np.max(np.abs(mdl0.V))), argmag * (sc if sc != 1.0 else 1.0), argmag if kind in ("roundtrip",) else 0.0)
+            if kind == "roundtrip":
+                opmag_before = max(opmag_before, float(np.max(np.abs(mdl0.V))) * max(abs(op[5]), 1 / abs(op[5])))
             if related(mdl0) and kind not in ("attr_write",):
                 ctx.nontrivial()
             if kind == "translate":
                 t = np.array(op[2], dtype=float)
+                if sc != 1.0 and step % 2 == 0:
+                    t = t * sc          # a translation of the size of the (scaled) mesh itself
+                    ctx.label("translate-at-mesh-scale")
                 arg = Vec(t) if op[3] == "vec" else t.copy() if op[3] == "numpy" else Vec(list(t))
                 before = np.array(arg, dtype=float).copy()
                 ok, r = ctx.call("op:translate", T.translate, m0, arg)
@@ -605,7 +614,8 @@ def fn(case, ctx):
             elif kind == "roundtrip":
                 which = op[2]
                 before = mdl0.V.copy()
-                sc = max(1.0, float(np.abs(before).max()))
+                rsc = max(float(np.abs(before).max()), float(np.max(np.abs(op[3]))) if which == "translate" else 0.0,
+                          float(np.abs(before).max()) * max(abs(op[5]), 1 / abs(op[5])) if which == "scale" else 0.0, 1e-300)
                 if which == "translate":
                     t = Vec(*op[3])
                     ok, _ = ctx.call("op:translate", T.translate, m0, t); ok2, _ = ctx.call("op:translate", T.translate, m0, -t)
@@ -616,11 +626,11 @@ def fn(case, ctx):
                     ok, _ = ctx.call("op:scale", T.scale, m0, op[5]); ok2, _ = ctx.call("op:scale", T.scale, m0, 1 / op[5])
                 if not (ok and ok2): continue
                 V, _, _, _ = read_mesh(m0)
-                ctx.check(V.shape == before.shape and bool(np.all(np.abs(V - before) <= 1e-12 * sc * 8)), "roundtrip:" + which,
+                ctx.check(V.shape == before.shape and bool(np.all(np.abs(V - before) <= 1e-12 * rsc * 8)), "roundtrip:" + which,
                           f"{where}: {which} followed by its inverse does not restore the coordinates (max deviation {float(np.abs(V - before).max()) if V.shape == before.shape else 'shape'})")
                 ctx.label("roundtrip=" + which)
             ctx.label("op=" + kind)
-        verify(where, target)
+        verify(where, target, opmag=(locals().get("opmag_before") if target is not None else None))
 
 
 SUBCHECKS = [SubCheck("value_semantics", history(), fn, quick=1200, thorough=2500)]
